@@ -504,9 +504,13 @@ class CaseRunner:
             if self.aux.random() < 0.3:
                 from proof_generation import llvm_proof_hint as H
                 for _ in range(self.aux.randint(1, 2)):
-                    kind = self.aux.choice(('side', 'function', 'hook'))
+                    kind = self.aux.choice(('side', 'side+term', 'function', 'hook'))
                     if kind == 'side':
                         events.append(H.LLVMSideCondEvent(c.rules[st.rule].ordinal, tuple(st.sigma.items())))
+                    elif kind == 'side+term':
+                        # a side-condition check followed by a term (what it evaluated to / the configuration it looked at)
+                        events.append(H.LLVMSideCondEvent(c.rules[st.rule].ordinal, tuple(st.sigma.items())))
+                        events.append(self.aux.choice((tr.init, st.after)))
                     elif kind == 'function':
                         events.append(H.LLVMFunctionEvent('Lblf{}', '0:0', ()))
                     else:
